@@ -1,68 +1,114 @@
 #!/usr/bin/env python3
-"""Run the registered quick checks against seeded changes, one at a time:
+"""Run the checks against seeded changes.
 
-    run_seeds.py [--tier quick] <seed-id> [<seed-id> ...]   (or 'all')
+    run_seeds.py [--tier quick] [--par N] [--props C01,C14] [--in-repo] <seed-id>... | all
 
-For each seed: git -C /repo apply seeded/<id>/patch.diff ; ./check <PROP> ; git -C /repo checkout -- .
-The outcome (exit code, VIOLATION lines, which harnesses failed) is written to
-seeded/<id>/result.json. /repo must be clean before and is clean afterwards.
-Nothing else may run checks while this is running (the patch is applied to /repo itself).
+Default mode: each seed gets its own scratch worktree of /repo's HEAD under /tmp/seedrun/,
+the patch is applied there and the check is pointed at it with VERIF_REPO / VERIF_BUILD
+(so /repo is never touched and several seeds can run at once); worktree and build output
+are removed afterwards. With --in-repo the patch is applied to /repo itself
+(git -C /repo apply ... ; ./check ... ; git -C /repo checkout -- .), one seed at a time.
+The outcome is written to seeded/<id>/result.json.
 """
 import json
 import os
 import re
+import shutil
 import subprocess
 import sys
 import time
+from concurrent.futures import ThreadPoolExecutor
 
 VERIF = os.path.dirname(os.path.dirname(os.path.abspath(__file__)))
 SEEDED = os.path.join(VERIF, "seeded")
+ROOT = "/tmp/seedrun"
 
 
 def sh(cmd, **kw):
     return subprocess.run(cmd, stdout=subprocess.PIPE, stderr=subprocess.STDOUT, **kw)
 
 
+def run_one(sid, tier, props_override, in_repo, jobs):
+    d = os.path.join(SEEDED, sid)
+    meta = json.load(open(os.path.join(d, "meta.json")))
+    props = props_override or meta.get("check_with") or [meta["property"]]
+    env = dict(os.environ)
+    if in_repo:
+        repo = "/repo"
+    else:
+        repo = os.path.join(ROOT, sid)
+        build = os.path.join(ROOT, sid + ".build")
+        sh(["git", "-C", "/repo", "worktree", "remove", "--force", repo])
+        shutil.rmtree(repo, ignore_errors=True)
+        shutil.rmtree(build, ignore_errors=True)
+        os.makedirs(ROOT, exist_ok=True)
+        r = sh(["git", "-C", "/repo", "worktree", "add", "--detach", repo, "HEAD"])
+        if r.returncode != 0:
+            return {"seed": sid, "error": "worktree: " + r.stdout.decode()[:300]}
+        if not os.path.exists(os.path.join(repo, "Cargo.lock")):
+            shutil.copyfile("/repo/Cargo.lock", os.path.join(repo, "Cargo.lock"))   # not tracked by git
+        env["VERIF_REPO"] = repo
+        env["VERIF_BUILD"] = build
+    result = {"seed": sid, "tier": tier, "runs": [], "mode": "in-repo" if in_repo else "scratch worktree via VERIF_REPO"}
+    try:
+        r = sh(["git", "-C", repo, "apply", os.path.join(d, "patch.diff")])
+        if r.returncode != 0:
+            result["error"] = "patch does not apply: " + r.stdout.decode()[:300]
+            print(sid, "PATCH DOES NOT APPLY", flush=True)
+            return result
+        for prop in props:
+            t0 = time.time()
+            cmd = [os.path.join(VERIF, "check"), prop, "--tier", tier]
+            if jobs:
+                cmd += ["--jobs", str(jobs)]
+            p = sh(cmd, cwd=VERIF, env=env)
+            out = p.stdout.decode(errors="replace")
+            viol = re.findall(r"^VIOLATION .*$", out, re.M)
+            harn = sorted(set(re.findall(r"replay=\S*/([a-z0-9_]+?)(?:__[0-9a-f]{10})?\.json", out)))
+            incon = re.findall(r"^(?:INCONCLUSIVE|MACHINERY).*$", out, re.M)
+            result["runs"].append({"property": prop, "exit": p.returncode, "violations": len(viol),
+                                   "failing_harnesses": harn, "inconclusive": [x[:200] for x in incon[:10]],
+                                   "summary": (re.findall(r"^SUMMARY.*$", out, re.M) or [""])[-1],
+                                   "wall_s": round(time.time() - t0)})
+            print(sid, prop, "exit", p.returncode, "harnesses", harn, "incon", len(incon), "%ds" % (time.time() - t0), flush=True)
+    finally:
+        if in_repo:
+            sh(["git", "-C", "/repo", "checkout", "--", "."])
+        else:
+            sh(["git", "-C", "/repo", "worktree", "remove", "--force", repo])
+            shutil.rmtree(repo, ignore_errors=True)
+            shutil.rmtree(os.path.join(ROOT, sid + ".build"), ignore_errors=True)
+    result["detected"] = any(r["exit"] == 1 for r in result["runs"])
+    json.dump(result, open(os.path.join(d, "result.json"), "w"), indent=1)
+    return result
+
+
 def main():
     args = sys.argv[1:]
-    tier = "quick"
-    props_override = None
-    if args and args[0] == "--tier":
-        tier = args[1]
-        args = args[2:]
-    if args and args[0] == "--props":
-        props_override = args[1].split(",")
-        args = args[2:]
+    tier, par, props, in_repo, jobs = "quick", 3, None, False, 5
+    while args and args[0].startswith("--"):
+        if args[0] == "--tier":
+            tier = args[1]; args = args[2:]
+        elif args[0] == "--par":
+            par = int(args[1]); args = args[2:]
+        elif args[0] == "--props":
+            props = args[1].split(","); args = args[2:]
+        elif args[0] == "--jobs":
+            jobs = int(args[1]); args = args[2:]
+        elif args[0] == "--in-repo":
+            in_repo = True; par = 1; args = args[1:]
+        else:
+            break
     ids = sorted(os.listdir(SEEDED)) if args == ["all"] else args
-    for sid in ids:
-        d = os.path.join(SEEDED, sid)
-        meta = json.load(open(os.path.join(d, "meta.json")))
-        props = props_override or meta.get("check_with") or [meta["property"]]
+    if in_repo:
         dirty = sh(["git", "-C", "/repo", "status", "--porcelain", "--untracked-files=no"]).stdout.strip()
         if dirty:
             print("refusing: /repo is not clean")
             sys.exit(2)
-        r = sh(["git", "-C", "/repo", "apply", os.path.join(d, "patch.diff")])
-        if r.returncode != 0:
-            print(sid, "PATCH DOES NOT APPLY", r.stdout.decode()[:300])
-            continue
-        result = {"seed": sid, "tier": tier, "runs": []}
-        try:
-            for prop in props:
-                t0 = time.time()
-                p = sh([os.path.join(VERIF, "check"), prop, "--tier", tier], cwd=VERIF)
-                out = p.stdout.decode(errors="replace")
-                viol = re.findall(r"^VIOLATION .*$", out, re.M)
-                harn = sorted(set(re.findall(r"replay=\S*/([a-z0-9_]+)__", out)))
-                incon = re.findall(r"^(?:INCONCLUSIVE|MACHINERY).*$", out, re.M)
-                result["runs"].append({"property": prop, "exit": p.returncode, "violations": viol,
-                                       "failing_harnesses": harn, "inconclusive": incon[:10],
-                                       "wall_s": round(time.time() - t0)})
-                print(sid, prop, "exit", p.returncode, "harnesses", harn, "incon", len(incon), "%ds" % (time.time() - t0), flush=True)
-        finally:
-            sh(["git", "-C", "/repo", "checkout", "--", "."])
-        result["detected"] = any(r["exit"] == 1 for r in result["runs"])
-        json.dump(result, open(os.path.join(d, "result.json"), "w"), indent=1)
+    with ThreadPoolExecutor(max_workers=par) as ex:
+        results = list(ex.map(lambda s: run_one(s, tier, props, in_repo, jobs), ids))
+    for r in results:
+        print(r["seed"], "DETECTED" if r.get("detected") else "missed", [(x["property"], x["exit"], x["failing_harnesses"]) for x in r.get("runs", [])], r.get("error", ""))
 
 
 if __name__ == "__main__":
